@@ -187,6 +187,13 @@ func accountsGenMut(r *Rng, dirs, files, links, missing []string) accountsMut {
 	if strings.HasSuffix(m.Path, "/") && m.Type != "directory" && m.Type != "permissions" {
 		m.Path = "/" + raw
 	}
+	// tarfs.Link accepts directories: a hard link from inside a directory to that directory (or an ancestor,
+	// possibly one that ensureParentDirectory is about to make) closes a cycle, and fs.WalkDir — the recursive
+	// directory mutation and the layer writer alike — then never returns.  That is a hang (C15), not a C13
+	// matter; such requests are not generated.
+	if m.Type == "hardlink" && strings.HasPrefix(path.Clean("/"+raw)+"/", path.Clean("/"+m.Source)+"/") {
+		m.Source = "/etc/conf"
+	}
 	return m
 }
 
